@@ -86,3 +86,12 @@ def future_remove_done_callback(self, fn):
     raises_nothing()
     ensures(not contains(seq(self._callbacks), fn))
     ensures(forall(lambda x: implies(x is not fn, contains(seq(self._callbacks), x) == old(contains(seq(self._callbacks), x)))))
+
+
+@lib('await:asyncio.Future')
+def await_future(fut):
+    """outcome of `await fut` once the awaiting task is resumed (the suspension itself is the engine's rely-havoc)"""
+    modifies()
+    ensures(fut._state == 'FINISHED' and fut._exception is None and result is fut._result)
+    raises(asyncio.CancelledError, fut._state == 'CANCELLED')
+    raises(BaseException, fut._state == 'FINISHED' and fut._exception is not None and exc is fut._exception)
